@@ -327,7 +327,7 @@ func (f *OrefaFile) ReadDir(n int) ([]fs.DirEntry, error) {
 	}
 
 	end := start + n
-	if end > len(f.dirEntries) {
+	if end > len(f.dirEntries) || end < start {
 		end = len(f.dirEntries)
 	}
 
@@ -404,7 +404,7 @@ func (f *OrefaFile) Readdirnames(n int) (names []string, err error) {
 	}
 
 	end := start + n
-	if end > len(f.dirNames) {
+	if end > len(f.dirNames) || end < start {
 		end = len(f.dirNames)
 	}
 
